@@ -127,6 +127,9 @@ theorem conv_meets_denote (P : Params) (hP : FloatSane P) (cfg : Cfg) (p : Prim)
   | dur =>
     simp only [convPrim, Spec.denote, Spec.Den.of]
     cases (P s).d <;> simp
+  | opq k =>
+    simp only [convPrim, Spec.denote, Spec.Den.of]
+    cases (P s).o.lookup k <;> simp
 
 
 end Rivaas.Bind
